@@ -1,6 +1,7 @@
 package kdcproxy
 
 import (
+	"encoding/binary"
 	"fmt"
 	krbconfig "github.com/bolkedebruin/gokrb5/v8/config"
 	"github.com/jcmturner/gofork/encoding/asn1"
@@ -215,15 +216,42 @@ func encode(krb5data []byte) (r []byte, err error) {
 }
 
 func awaitReply(conn net.Conn, isUdp bool, reply chan<- []byte) {
-	resp, err := io.ReadAll(conn)
-	if err != nil {
+	if isUdp {
+		// one datagram is one message; udp will be missing the length prefix so add it
+		buf := make([]byte, maxLength)
+		n, err := conn.Read(buf)
+		if err != nil {
+			log.Printf("error reading from kdc due to %s", err)
+			reply <- nil
+			return
+		}
+		resp := make([]byte, 4+n)
+		binary.BigEndian.PutUint32(resp, uint32(n))
+		copy(resp[4:], buf[:n])
+		reply <- resp
+		return
+	}
+
+	// over tcp a message is its 4 byte length followed by that many bytes; the
+	// kdc may keep the connection open afterwards
+	prefix := make([]byte, 4)
+	if _, err := io.ReadFull(conn, prefix); err != nil {
 		log.Printf("error reading from kdc due to %s", err)
 		reply <- nil
 		return
 	}
-	if isUdp {
-		// udp will be missing the length prefix so add it
-		resp = append([]byte{byte(len(resp))}, resp...)
+	size := binary.BigEndian.Uint32(prefix)
+	if size > maxLength {
+		log.Printf("kdc reply of %d bytes is too large", size)
+		reply <- nil
+		return
+	}
+	resp := make([]byte, 4+size)
+	copy(resp, prefix)
+	if _, err := io.ReadFull(conn, resp[4:]); err != nil {
+		log.Printf("error reading from kdc due to %s", err)
+		reply <- nil
+		return
 	}
 	reply <- resp
 }
